@@ -57,9 +57,23 @@ PROPS = {
         ],
         "explanation": "integer/float/char/bool/unit/option conversions at the host boundary, full input domain",
     },
-    "C06": {
-        "units": ["glob", "env", "cset"],
+    "C15": {
+        "units": ["genv", "roots", "intr"],
         "trusted_base": COMMON_TB + [
+            "units/genv/prelude.rs: the global table as a 4-slot table that logs its updates (contract of SharedVectorWrapper proved in unit env), Env::{drain_env, default_env, update_env} and Synchronizer::{stop_threads, resume_threads, call_per_ctx} as ghost recorders over two other thread contexts, enter_safepoint runs its closure once",
+            "units/roots/prelude_mark.rs (see C04): Synchronizer::{stop_threads, enumerate_stacks, resume_threads} and the marker as ghost recorders",
+            "units/intr/prelude.rs (see C17): AtomicCell as a plain cell, std::thread::park shadowed by a ghost stub",
+        ],
+        "assumptions": [
+            "ONE thread's view only: Kani has no threads; atomics are sequentially consistent; the other threads are ghost contexts",
+            "that stop_threads / call_per_ctx / enumerate_stacks wait until every other thread has parked and published itself (the handshake), threads blocked in primitives and forked thread handles are NOT decided - the core of the property",
+        ],
+        "explanation": "protocol order of the world-stopping operations (global define / set!, full collection) and agreement of all threads' global tables afterwards",
+    },
+    "C06": {
+        "units": ["glob", "env", "cset", "genv"],
+        "trusted_base": COMMON_TB + [
+            "units/genv/prelude.rs: the global table as a 4-slot table that logs its updates (contract of SharedVectorWrapper proved in unit env), Env::{drain_env, default_env, update_env} and Synchronizer::{stop_threads, resume_threads, call_per_ctx} as ghost recorders over two other thread contexts, enter_safepoint runs its closure once",
 "units/cset/prelude.rs: reduced AST (a sub-expression is a leaf or an identifier; node structs with the real field names), quickscope::ScopeSet / FxHashSet / SmallVec as exact finite models, `CollectSet::visit` as the callee contract of the recursive visitor (records sub-expression and scope state, leaves the scope stack unchanged)",
             "units/env/prelude.rs: shared_vector::AtomicSharedVector as a Vec with the same API (assumed contract; copy-on-write between threads not modelled), reduced SteelVal",
             "units/glob/prelude.rs: InternedString as a u32 newtype, FxHashMap/HashSet as exact finite map/set models (assumed contract of hashbrown), reduced SteelVal/ByteCodeLambda, Heap no-ops, visitor loop reduced to the Closure arm",
@@ -117,8 +131,9 @@ PROPS = {
         "explanation": "frame-reuse contract of the interpreter's tail-call handlers and the depth-limit check",
     },
     "C01": {
-        "units": ["vm", "anl", "cev", "cgen", "cset", "num", "unw", "pgm", "apl"],
+        "units": ["vm", "anl", "cev", "cgen", "cset", "num", "unw", "pgm", "apl", "genv"],
         "trusted_base": COMMON_TB + [
+            "units/genv/prelude.rs: the global table as a 4-slot table that logs its updates (contract of SharedVectorWrapper proved in unit env), Env::{drain_env, default_env, update_env} and Synchronizer::{stop_threads, resume_threads, call_per_ctx} as ghost recorders over two other thread contexts, enter_safepoint runs its closure once",
 "units/apl/prelude_extra.rs (+ units/vm/prelude.rs with five function-valued SteelVal variants): new_handle_tail_call_closure / handle_function_call_closure as callee contracts (their own contracts are unit vm) that record closure, argument count, ip and operand stack; List::cons / iter as an exact sequence model",
             "units/pgm/prelude.rs: Instruction with its three real fields, InternedString as a number + ghost flag `text starts with #%prim.`, the interned symbol statics as pairwise distinct numbers; real steel-gen OpCode, u24 extracted",
             "units/cgen/prelude.rs: reduced AST, Analysis maps as association lists, std Vec inside code_gen.rs as a typed 16-slot array (assumed contract of Vec), `CodeGenerator::visit` as ghost callee appending a concrete number of marker instructions, specialize_* helpers return None (jit2 build; checked textually), println! no-op; u24 / LabeledInstruction / CallKind / SemanticInformation / ... extracted verbatim, real steel-gen OpCode",
